@@ -62,7 +62,13 @@ def make_catch(codes):
     g = mods()
     codes = np.asarray(codes, dtype=np.int64)
     nr, nc = codes.shape
-    fd = g.Grid("fd", nc, nr, dtype=np.int64)
+    # the flow grid sits somewhere on a map, with some cell size: areas, path lengths and
+    # river distances are counted in cells and do not depend on it
+    h_ = int(codes.sum() * 3 + nc) % 5
+    geo = [{}, {}, {"cellsize": 30.0, "xllcorner": 512340.0, "yllcorner": 6.1e6},
+           {"cellsize": 0.0025, "xllcorner": 144.5, "yllcorner": -37.25},
+           {"cellsize": 250.0, "xllcorner": -1000.0, "yllcorner": 0.0}][h_]
+    fd = g.Grid("fd", nc, nr, dtype=np.int64, **geo)
     # the code array arrives in one of several memory layouts
     lay = ["C", "fortran", "C", "negstride", "C", "rowstrided", "C", "readonly"][
         int(codes.sum() + nr) % 8]
@@ -656,8 +662,9 @@ def run_api_sequence(ctx, codes, case, rng):
                 check_river(ctx, fd, model, int(rng.integers(0, n)), c2, False)
             elif op == "intersect" and len(state["ref"] or ()) > 0:
                 ctx.api("intersect")
-                cg = g.Grid("cg", nc + 2, nr + 2, cellsize=1.0, xllcorner=-1.0,
-                            yllcorner=-1.0)
+                cg = g.Grid("cg", nc + 2, nr + 2, cellsize=fd.cellsize,
+                            xllcorner=fd.xllcorner - fd.cellsize,
+                            yllcorner=fd.yllcorner - fd.cellsize)
                 with warnings.catch_warnings():
                     warnings.simplefilter("ignore")
                     _, ic, w = cat.intersect(cg)
